@@ -96,7 +96,9 @@ SHAPES = {
                    # the same parameters written in another order denote the same media range
                    (["text/html;level=1;charset=utf-8", "text/plain"], ["text/plain", "text/html; charset=utf-8; level=1"])],
     "LanguageAccept": [(["en-US", "en", "*"], ["en", "en_us", "de"]), (["de", "en-gb"], ["en-GB", "de", "fr"]), (["*", "fr"], ["fr", "it"]),
-                       (["en_US", "fr-CA"], ["fr", "en"]), (["en", "de"], ["it", "en-US", "de_AT"]), (["en_US", "zh-Hant-TW"], ["de", "zh", "en-GB"])],
+                       (["en_US", "fr-CA"], ["fr", "en"]), (["en", "de"], ["it", "en-US", "de_AT"]), (["en_US", "zh-Hant-TW"], ["de", "zh", "en-GB"]),
+                       # '_' and '-' are interchangeable on either side
+                       (["en_US", "fr", "*"], ["fr", "en-US", "de_AT"]), (["de_at", "pt-BR"], ["pt_br", "de-AT"])],
     "CharsetAccept": [(["utf-8", "latin1", "*"], ["iso-8859-1", "UTF8", "ascii"]), (["ascii", "utf8"], ["us-ascii", "utf-8"])],
 }
 
